@@ -2,7 +2,7 @@
 //!  (a) range: every reported location lies inside the input (all input classes, all schedules);
 //!  (b) exact: a grammar-valid document corrupted at one known token is rejected at that token.
 
-use crate::drive::{Outcome, PCfg, PKind};
+use crate::drive::{Ctor, Outcome, PCfg, PKind};
 use crate::framework::{Meta, Prop, RunOut, Stats, Tier, Violation};
 use crate::gen::{self, Doc, Tok, TokKind};
 use crate::json::{hex, show_bytes, Json, Kv};
@@ -10,6 +10,7 @@ use crate::props::parsers::{
     gen_cfg, gen_ctor, msg_class, run_scheduled, shrink_case, ParseCase,
 };
 use crate::rng::{Fnv, Rng};
+use crate::source::SourceCfg;
 use crate::source::gen_plan;
 
 #[derive(Clone, Debug)]
@@ -281,7 +282,17 @@ fn gen_case(rng: &mut Rng) -> LocCase {
             }
         }
     }
-    let ctor = gen_ctor(rng);
+    // deep focus: in a huge document, one read boundary exactly in front of the corrupted token
+    // and chunk sizes in the shipped range (the cursor is then tens of KiB into the buffer)
+    let deep = size == 3 && focus.is_some() && rng.chance(1, 2);
+    let ctor = if deep {
+        Ctor::Reader {
+            via: crate::drive::Via::FromRead,
+            chunk: *rng.pick(&[None, Some(16384usize), Some(4096), Some(1000), Some(65536)]),
+        }
+    } else {
+        gen_ctor(rng)
+    };
     let junk = if ctor.uses_bufreader() {
         let n = rng.small(12);
         rng.bytes(n)
@@ -294,7 +305,17 @@ fn gen_case(rng: &mut Rng) -> LocCase {
         _ => d.cuts().iter().map(|c| c + junk.len()).collect(),
     };
     let interrupts = rng.weighted(&[6, 2, 1]) as u8;
-    let src = gen_plan(rng, bytes.len() + junk.len(), &cuts, interrupts);
+    let mut src = gen_plan(rng, bytes.len() + junk.len(), &cuts, interrupts);
+    if deep {
+        let at = focus.unwrap().0;
+        src = SourceCfg {
+            steps: vec![crate::source::Step::Until(at.saturating_sub(*rng.pick(&[0usize, 0, 0, 1, 2])))],
+            cycle: false,
+            fail_at: None,
+            fail_os: None,
+            poison: None,
+        };
+    }
     let _ = binary;
     LocCase {
         base: ParseCase {
